@@ -23,6 +23,7 @@ type HSpec struct {
 	IntOverflow  bool   `json:"check_int_overflow,omitempty"`
 	MaxDecisions int    `json:"max_decisions,omitempty"`
 	TimeoutMs    int    `json:"timeout_ms,omitempty"`
+	ReplayRepeat int    `json:"replay_repeat,omitempty"`
 }
 
 type PropSpec struct {
@@ -253,15 +254,19 @@ func cmdCheck(args []string) {
 	for _, p := range pkgs {
 		list := byPkg[p]
 		race := false
+		repeat := 1
 		var cases []*ReplayCase
 		for _, pr := range list {
 			cases = append(cases, pr.c)
 			if pr.hs.Race {
 				race = true
 			}
+			if pr.hs.ReplayRepeat > repeat {
+				repeat = pr.hs.ReplayRepeat
+			}
 		}
 		dir := filepath.Join(replayRoot, strings.ReplaceAll(strings.TrimPrefix(p, repoMod+"/"), "/", "_"))
-		res, text, err := replayBatch(dir, p, pkgName[p], harnessNamesByPkg[p], cases, race, ovPaths)
+		res, text, err := replayBatch(dir, p, pkgName[p], harnessNamesByPkg[p], cases, race, repeat, ovPaths)
 		if err != nil {
 			inconclusive = append(inconclusive, "replay of "+p+" failed: "+err.Error()+"\n"+tail(text, 30))
 			continue
